@@ -184,6 +184,33 @@ def run_model(casefile, outfile, timeout=1800):
     return rc, out
 
 
+def run_model_sharded(blocks, workdir, tag="model", nsh=16, timeout=1800):
+    """blocks: list of complete 'case ... end' texts. Runs the extracted model on them in up to nsh parallel
+    driver processes. Returns (observations, problems) where problems lists shards that crashed or timed out."""
+    import concurrent.futures
+    nsh = max(1, min(nsh, len(blocks)))
+    shards = [os.path.join(workdir, "%s_cases_%d.txt" % (tag, k)) for k in range(nsh)]
+    fs = [open(p, "w") for p in shards]
+    for i, b in enumerate(blocks):
+        fs[i % nsh].write(b if b.endswith("\n") else b + "\n")
+    for f in fs:
+        f.close()
+
+    def one(p):
+        try:
+            rc, out = run_model(p, p + ".out", timeout=timeout)
+            return p, rc, out
+        except Exception as e:
+            return p, "TIMEOUT", str(e)[:200]
+    M, problems = {}, []
+    with concurrent.futures.ThreadPoolExecutor(nsh) as ex:
+        for p, rc, out in ex.map(one, shards):
+            if rc != 0:
+                problems.append("model driver %s on %s: %s" % ("timed out" if rc == "TIMEOUT" else "exit %s" % rc, os.path.basename(p), out[-300:]))
+            M.update(read_obs(p + ".out"))
+    return M, problems
+
+
 def read_obs(path):
     """observation file -> {case_id: [lines without the case id]}"""
     d = {}
